@@ -70,7 +70,7 @@ def _requests(g, size, buf):
     cl = g["spc"] * 512
     pts = boundaries(size, cl, buf)
     if g.get("big"):
-        reqs = request_pairs(pts, cl + 1024)
+        reqs = request_pairs(pts, 2 * buf + 1024)
         reqs += [(0, size), (0, 2 * cl), (cl // 2, 2 * cl), (cl - 512, cl + 1024), (cl, size), (1, size - 2)]
         return reqs
     return request_pairs(pts)
